@@ -30,6 +30,8 @@ impl SnapshotWriter {
             //.append(true)
             //.create_new(true)
             .create(true)
+            // the id (and so the path) of an interrupted earlier build is reused: drop its content
+            .truncate(true)
             .open(path)
             .await?;
         let mut buf = Vec::new();
